@@ -17,6 +17,8 @@ from spec.rt import bits, bit
 from . import machine as MC
 from . import c13
 from .common import own_frame, ALSO_MEM
+from .c11 import valid
+from pyvc.sym import cmp
 
 ASSUMPTIONS = [
     'scope: stage 1 only - no Virtualization Extensions (no stage 2), not Hyp mode, TTBCR.EAE == 0 (Short-descriptor format) or MMU off; '
@@ -137,6 +139,7 @@ def unit(virt=False):
         eng.oblige_all('post', 'shareability and cacheability attributes (PRRR/NMRR remap)', named)
 
     def replay(inputs, ob):
+        MC.leaves('VMSA', 1)       # (constructs the schema's own instance first: every constructor reloads the configuration singleton)
         cpu = MC.native_cpu('VMSA', 1, overrides=({'have_virt_ext': True, 'have_security_ext': True, 'have_lpae': True} if virt else {'have_virt_ext': False}), fresh=True)
         ins = dict(inputs)
         MC.install_native(cpu, ins, 'VMSA', 1)
@@ -294,6 +297,7 @@ def unit_ld(virt=False):
             ('outershareable', lor(dc, lnot(sp['type_defined']), sym.eq(sym.truth(ma.attrs['outershareable']), sym.truth(sp['outershareable']))))])
 
     def replay(inputs, ob):
+        MC.leaves('VMSA', 1)       # (constructs the schema's own instance first: every constructor reloads the configuration singleton)
         cpu = MC.native_cpu('VMSA', 1, overrides=({'have_virt_ext': True, 'have_security_ext': True, 'have_lpae': True} if virt else {'have_virt_ext': False}), fresh=True)
         ins = dict(inputs)
         MC.install_native(cpu, ins, 'VMSA', 1)
@@ -357,5 +361,148 @@ def unit_ld(virt=False):
                 meta={'function': '%s.ArmV6.translate_address_v' % A.__module__, 'also': ALSO_MEM})
 
 
+def unit_safety(which):
+    """Hyp mode and the second stage of translation (Virtualization Extensions): no functional specification, but the
+    contracts every caller relies on -- C18: no host error (an architectural Data Abort, the documented not-implemented
+    outcome of a mock hook, or a descriptor); C19/C20: a successful translation changes no register and no memory, a fault
+    changes only the fault-reporting registers (DFSR, DFAR, HSR, HDFAR, HPFAR and, for prefetch-style reporting, IFSR/IFAR),
+    the walk terminates, the descriptor returned is built by this translation and has a 40-bit physical address."""
+    m = registry.mods()
+    A = m.arm_v6.ArmV6
+    MT = m.memory_attributes.MemType
+    uid = 'C15/fn:%s.ArmV6.translate_address_v[safety;%s]' % (A.__module__, which)
+    FAULT_REGS = ('dfsr', 'dfar', 'hsr', 'hdfar', 'hpfar', 'ifsr', 'ifar')
+    CFG = {'have_virt_ext': True, 'have_security_ext': True, 'have_lpae': True}
+
+    def symbolic(eng):
+        log = eng.register([])
+        hub = c13.AbsHub(eng, log)
+        mach = MC.SymMachine(eng, 'VMSA', 1, mem=hub, cfg_fixed=CFG)
+        cpu = mach.cpu
+        init = dict(mach.init)
+        cfg = mach.configs
+        mode0 = bits(init['cpsr'], 4, 0)
+        eng.assume(lnot(ST.bad_mode(mode0, cfg['have_security_ext'], cfg['have_virt_ext'])))
+        eng.assume(valid(init))
+        if which == 'hyp':
+            eng.assume(mode0 == ST.HYP)
+            eng.assume(lnot(ST.is_secure(init)))                        # Hyp mode exists in Non-secure state only
+        else:
+            eng.assume(mode0 != ST.HYP)
+            eng.assume(land(lnot(ST.is_secure(init)), bit(init['hcr'], 0) == 1))     # stage 2 active
+            eng.assume((bit(init['sctlr'], 0) == 1) if which == 'stage2,s1 on' else (bit(init['sctlr'], 0) == 0))
+        va = eng.fresh_int('va', 32)
+        ispriv = eng.fresh_bool('ispriv')
+        iswrite = eng.fresh_bool('iswrite')
+        wasaligned = eng.fresh_bool('wasaligned')
+        if not eng.prefix:
+            eng.cover('state satisfiable')
+
+        def hook(model):
+            return {'__reads__': [[sym.evaluate(pa, model), sym.evaluate(v, model)] for (k, pa, sz, v) in log if k == 'hubR']}
+        eng.model_hook = hook
+        contracts = {}
+        contracts.update(registry.l1())
+        contracts.update(registry.regview())
+        contracts.update(registry.l2())
+        eng.contracts = contracts
+        exc = None
+        r = None
+        try:
+            r = eng.call(A.translate_address_v, [cpu, va, ispriv, iswrite, 4, wasaligned])
+        except PyRaise as e:
+            exc = e.exc
+        except sym.OutOfSubset as e:
+            if 'unwinding bound' not in str(e):
+                raise
+            if getattr(e, 'pc', None) is not None:
+                eng.path.pc = list(e.pc)
+            eng.oblige('term', 'every table walk finishes within three levels (lookup loop terminates)', False, detail=str(e))
+            return
+        final = mach.read()
+        own_frame(eng, 'translate_address_v')
+        if exc is not None and issubclass(exc.cls, NotImplementedError):
+            return          # a mock hook of the implementation (fault syndrome bit, access flag update, ...): accepted outcome
+        if exc is not None and not issubclass(exc.cls, m.arm_exceptions.DataAbortException):
+            eng.oblige('safe.host', 'translate_address_v raises %s' % exc.cls.__name__, False, detail=str(exc.attrs.get('args')))
+            return
+        mem_same = ('memory', sym.SymBool(hub.term == hub.init))
+        if exc is not None:
+            eng.oblige_all('frame', 'a faulting translation changes only the fault-reporting registers',
+                           [(k, values_eq(v, init[k])) for k, v in final.items() if k not in FAULT_REGS] + [mem_same])
+            return
+        eng.oblige_all('frame', 'a successful translation changes no state', [(k, values_eq(v, init[k])) for k, v in final.items()] + [mem_same])
+        ok_shape = isinstance(r, Obj) and isinstance(r.attrs.get('paddress'), Obj) and isinstance(r.attrs.get('memattrs'), Obj)
+        eng.oblige('frame.own', 'the descriptor returned is an object built by this translation', ok_shape, detail=type(r).__name__)
+        if not ok_shape:
+            return
+        pa = r.attrs['paddress'].attrs['physicaladdress']
+        eng.oblige('inv.range', 'the physical address is a 40-bit value', land(cmp('>=', pa, 0), cmp('<', pa, 1 << 40)) if sym.is_intlike(pa) else False)
+        ty = r.attrs['memattrs'].attrs.get('type')
+        eng.oblige('safe.host', 'the memory type of the result is a MemType member', isinstance(ty, MT) or (isinstance(ty, Obj) and ty.cls is MT) or type(ty).__name__ == 'MemType',
+                   detail=repr(ty)[:80])
+
+    def replay(inputs, ob):
+        MC.leaves('VMSA', 1)       # (constructs the schema's own instance first: every constructor reloads the configuration singleton)
+        cpu = MC.native_cpu('VMSA', 1, overrides=CFG, fresh=True)
+        ins = dict(inputs)
+        MC.install_native(cpu, ins, 'VMSA', 1)
+        init = MC.read_native(cpu, 'VMSA', 1)
+        table = {pa: v for pa, v in ins.get('__reads__', [])}
+        writes = []
+
+        class Mem:
+            def __getitem__(self, key):
+                desc, size = key
+                return table.get(desc.paddress.physicaladdress, 0)
+
+            def __setitem__(self, key, value):
+                writes.append(key)
+
+            def set_bits(self, *a):
+                raise NotImplementedError()
+        cpu.mem = Mem()
+        va, ispriv, iswrite, wasal = ins.get('va', 0), bool(ins.get('ispriv')), bool(ins.get('iswrite')), bool(ins.get('wasaligned'))
+        import io
+        import contextlib
+        import signal
+
+        def on_alarm(signum, frame):
+            raise TimeoutError('translation did not terminate within 5 s')
+        exc = r = None
+        signal.signal(signal.SIGALRM, on_alarm)
+        signal.alarm(5)
+        try:
+            with contextlib.redirect_stdout(io.StringIO()):
+                r = cpu.translate_address_v(va, ispriv, iswrite, 4, wasal)
+        except Exception as e:      # noqa
+            exc = e
+        finally:
+            signal.alarm(0)
+        final = MC.read_native(cpu, 'VMSA', 1)
+        lines = ['va=%s priv=%s write=%s aligned=%s cpsr=%s scr=%s hcr=%s sctlr=%s hsctlr=%s vtcr=%s descriptors read=%s' % (
+            hex(va), ispriv, iswrite, wasal, hex(init['cpsr']), hex(init['scr']), hex(init['hcr']), hex(init['sctlr']), hex(init['hsctlr']),
+            hex(init['vtcr']), {hex(a): hex(v) for a, v in table.items()})]
+        lines.append('real outcome: %s' % ('descriptor' if exc is None else '%s: %s' % (type(exc).__name__, exc)))
+        if ob.get('kind') == 'term':
+            return isinstance(exc, TimeoutError), '\n'.join(lines)
+        if isinstance(exc, NotImplementedError):
+            return False, '\n'.join(lines)
+        DA = registry.mods().arm_exceptions.DataAbortException
+        if exc is not None and not isinstance(exc, DA):
+            return True, '\n'.join(lines)
+        diff = [k for k in final if final[k] != init[k] and (exc is None or k not in FAULT_REGS)]
+        lines.append('state changed: %s ; memory writes: %d' % (diff, len(writes)))
+        bad = bool(diff) or bool(writes)
+        if exc is None and not bad:
+            pa = r.paddress.physicaladdress
+            bad = not (isinstance(pa, int) and 0 <= pa < (1 << 40)) or not isinstance(r.memattrs.type, MT)
+            lines.append('PA %r type %r' % (pa, r.memattrs.type))
+        return bad, '\n'.join(lines)
+
+    return Unit(uid, ['C15'], symbolic, replay, {'contracts': {}, 'max_paths': 200000, 'merge_calls': {A.encode_ldfsr, A.convert_attrs_hints}, 'loop_bound': 8},
+                meta={'function': '%s.ArmV6.translate_address_v' % A.__module__, 'also': ALSO_MEM})
+
+
 def units(tier):
-    return [unit(), unit_ld(), unit(True), unit_ld(True)]
+    return [unit(), unit_ld(), unit(True), unit_ld(True)] + [unit_safety(w) for w in ('hyp', 'stage2,s1 off', 'stage2,s1 on')]
